@@ -114,3 +114,30 @@ for _s in SHAPES:
 liesel_unit("diamond", "liesel/model/goose.py", "GooseModel")
 liesel_unit("diamond", auto_update=False)
 liesel_unit("hier", auto_update=False)
+
+
+@unit("C03.LieselInterface.ambiguous_key", "C03", [f"{IFACE}::LieselInterface.extract_position", f"{IFACE}::LieselInterface.update_state"],
+      assumptions=["graph: variable `scale` (value node `scale_value`) and another variable NAMED `scale_value`; a bare node `tau` and a variable `tau`"])
+def u_ambiguous(ip):
+    """put/get also holds for a position key that names both a node and a (different) variable: extract_position reads what
+    update_state wrote, and feeding extract_position back is a no-op."""
+    c = ip.ctx
+    install_graph_models(ip)
+    g = G(ip)
+    scale = g.var("scale")
+    other = g.var("scale_value")
+    tau_node = ip.call(g.Value, [g.val("tau_node")], {"_name": "tau"})
+    tau_var = g.var("tau")
+    top = g.calc("f_top", scale, other, tau_node, tau_var, name="top")
+    model = g.build(top)
+    iface = ip.call(ip.repo(f"{IFACE}::LieselInterface"), [model], {})
+    s = ip.getattr(model, "state")
+    for key in ("scale_value", "tau"):
+        p = {key: z3.Const(f"put_{key}", U)}
+        out = ip.call(method(ip, iface, "update_state"), [dict(p), s], {})
+        got = ip.call(method(ip, iface, "extract_position"), [[key], out], {})
+        c.oblige(f"put_get.{key}", ip.to_U(got[key]).eq(p[key]))
+        back = ip.call(method(ip, iface, "extract_position"), [[key], s], {})
+        out2 = ip.call(method(ip, iface, "update_state"), [back, s], {})
+        ref = ip.call(method(ip, iface, "update_state"), [{}, s], {})
+        c.oblige(f"get_put_is_noop.{key}", all(ip.to_U(out2[k_].f["value"]).eq(ip.to_U(ref[k_].f["value"])) for k_ in ref if ref[k_].f["value"] is not None))
